@@ -42,12 +42,13 @@ Qed.
    open readers use) inside the file. Truncating to the data end marker instead (seeded change C02j) cuts off a
    committed overflow area. *)
 From VF Require Import Alloc Truncate TruncateProofs MetaAllocProofs RollbackTruncProofs.
-Theorem C02_rollback_keeps_committed_extent : forall a0 p a t sz,
+Theorem C02_rollback_keeps_committed_extent : forall a0 p a t otherEnd sz,
   Inv0 a0 -> treach a0 p a t -> a_end (meta a) - a_end (data a0) < 2^32 -> 0 < pageSize a0 ->
   let r := rollback a t in
-  match rollback_truncate (a_end (meta r)) (a_end (data r)) sz (pageSize r) (maxPages r) with
-  | Some n => n < sz /\ n = Z.max (a_end (meta a0)) (a_end (data a0)) * pageSize a0 /\
-              forall id, 0 <= id < Z.max (a_end (meta a0)) (a_end (data a0)) -> (id + 1) * pageSize a0 <= n
+  match rollback_truncate (a_end (meta r)) (a_end (data r)) otherEnd sz (pageSize r) (maxPages r) with
+  | Some n => n < sz /\ n = Z.max (Z.max (a_end (meta a0)) (a_end (data a0))) otherEnd * pageSize a0 /\
+              (forall id, 0 <= id < Z.max (a_end (meta a0)) (a_end (data a0)) -> (id + 1) * pageSize a0 <= n) /\
+              (forall id, 0 <= id < otherEnd -> (id + 1) * pageSize a0 <= n)
   | None => True
   end.
 Proof. exact rollback_keeps_committed_extent. Qed.
